@@ -32,7 +32,7 @@ case "$1" in
   C*)
     build
     case "$1" in
-      C09|C14) build_race; export ICESIM_RACE_BIN="$PWD/bin/icesim-race" ;;
+      C09|C12|C14|C19) build_race; export ICESIM_RACE_BIN="$PWD/bin/icesim-race" ;;
     esac
     exec ./bin/icesim check "$1" "${2:-quick}"
     ;;
